@@ -18,6 +18,7 @@ def run(prog, rep, tier):
     apply(rep, "P2", "stack mutators maintain the type profile", r_core.p2(prog), 5)
     apply(rep, "P2b", "profile == types of the top W values after every push/pop/drop (abstract evaluation)", r_core.p2b(prog, tier), 2)
     apply(rep, "P4", "overload selection matches exactly the top n value types (abstract evaluation of selector)", r_core.p4(prog, tier), 1)
+    apply(rep, "P2c", "stack accessors are guarded exactly", r_core.p2c(prog), 5)
     apply(rep, "P3", "unsupported operand: diagnostic and no result", r_core.p3(prog), 3)
     r5 = r_stream.r5(prog)
     apply(rep, "R5", "numbering counters of ops are reset per input", ([i for i in r5[0] if "m_pos" in i[0]], [f for f in r5[1] if "m_pos" in f["key"]]), 1)
